@@ -33,8 +33,14 @@ pub enum Try { Noop, SetStateAndContinue(RawFetchState), Ready }
 pub struct ThisT { pub state: RawFetchState, pub id: usize, pub hash: u64, pub key: KeyOnce, pub ctx: CtxT, pub cache: CacheLogT, pub inflights: InflightsT, pub close: FlagT }
 pub struct OptFutT { pub f: u8 }
 impl OptFutT { #[verifier::external_body] pub fn poll_unpin(&mut self, cx: &mut Cx) -> Poll<Result<Option<TargetT>>> { unimplemented!() } }
-pub struct ReqFutT { pub f: u8 }
-impl ReqFutT { #[verifier::external_body] pub fn poll_unpin(&mut self, cx: &mut Cx) -> Poll<Result<TargetT>> { unimplemented!() } }
+/// the origin fetch future; `answer` is what polling it yields (ghost: lets the contract speak about failed / pending fetches)
+pub struct ReqFutT { pub answer: Ghost<Poll<Result<TargetT>>> }
+impl ReqFutT {
+    #[verifier::external_body]
+    pub fn poll_unpin(&mut self, cx: &mut Cx) -> (r: Poll<Result<TargetT>>)
+        ensures r == old(self).answer@, final(self).answer == old(self).answer,
+    { unimplemented!() }
+}
 
 pub struct RawFetch { }
 impl RawFetch {
@@ -85,6 +91,11 @@ impl RawFetch {
             forall|i: int| old(this).cache.inserts@.len() <= i < final(this).cache.inserts@.len() ==> (#[trigger] final(this).cache.inserts@[i]).1 == Source::Outer, // @label origin_fetch_inserted_as_outer
             // the error path takes waiters by the leader's own id
             forall|i: int| old(this).inflights.takes@.len() <= i < final(this).inflights.takes@.len() ==> (#[trigger] final(this).inflights.takes@[i]) == (old(this).hash, Some(old(this).id)), // @label error_path_takes_waiters_by_leader_id
+            // C06: a failed fetch caches nothing (the next call fetches again); a pending one changes nothing
+            old(required_fetch).answer@ matches Poll::Ready(Err(_)) ==> final(this).cache.inserts@ == old(this).cache.inserts@, // @label failed_fetch_caches_nothing
+            old(required_fetch).answer@ is Pending ==> final(this).cache.inserts@ == old(this).cache.inserts@ && final(this).inflights.takes@ == old(this).inflights.takes@, // @label pending_fetch_changes_nothing
+            !old(this).close.v && old(required_fetch).answer@ is Pending ==> r is Pending, // @label pending_fetch_keeps_the_task_pending
+            !old(this).close.v ==> (old(required_fetch).answer@ matches Poll::Ready(Ok(t)) ==> final(this).cache.inserts@ == old(this).cache.inserts@.push((t.t, Source::Outer)) && (r is Ready)), // @label fetched_value_is_inserted_once_as_an_origin_fetch
 //@prologue
         loop
             invariant_except_break this.close.v == old(this).close.v, this.key.k.is_some(), this.id == old(this).id, this.hash == old(this).hash,
@@ -92,7 +103,12 @@ impl RawFetch {
                 forall|i: int| old(this).cache.inserts@.len() <= i < this.cache.inserts@.len() ==> (#[trigger] this.cache.inserts@[i]).1 == Source::Outer,
                 this.cache.inserts@.len() >= old(this).cache.inserts@.len(), this.inflights.takes@.len() >= old(this).inflights.takes@.len(),
                 forall|i: int| old(this).inflights.takes@.len() <= i < this.inflights.takes@.len() ==> (#[trigger] this.inflights.takes@[i]) == (old(this).hash, Some(old(this).id)),
+                required_fetch.answer == old(required_fetch).answer,
+                this.cache.inserts@ == old(this).cache.inserts@, // an insert (handle_target) always ends the task
+                old(required_fetch).answer@ is Pending ==> this.inflights.takes@ == old(this).inflights.takes@,
             ensures !old(this).close.v,
+                this.cache.inserts@ == old(this).cache.inserts@, old(required_fetch).answer@ is Pending ==> this.inflights.takes@ == old(this).inflights.takes@,
+                !(old(required_fetch).answer@ matches Poll::Ready(Ok(_))), // a fetched value always ends the task (handle_target => Try::Ready)
                 forall|i: int| old(this).cache.inserts@.len() <= i < this.cache.inserts@.len() ==> (#[trigger] this.cache.inserts@[i]).1 == Source::Outer,
                 forall|i: int| old(this).inflights.takes@.len() <= i < this.inflights.takes@.len() ==> (#[trigger] this.inflights.takes@[i]) == (old(this).hash, Some(old(this).id)),
         {
